@@ -52,3 +52,4 @@ Check (C01_code_comparator_is_total : forall s a b c,
 Print Assumptions C01_code_comparator_is_total.
 Print Assumptions C01_counting_shortcuts.
 Print Assumptions C01_target_walk_terminates.
+Print Assumptions C01_target_resources_are_the_closure.
